@@ -102,6 +102,7 @@ MANIFEST = dict(
 )
 
 IMPORTS = ['SV.SM.AtomicWriter', 'SV.SM.AtomicExit', 'SV.SM.AtomicReuse', 'SV.SM.AtomicRetry', 'SV.SM.AtomicProduct',
+           'SV.SM.AtomicAbandon',
            'SV.Gen.AtomicWriter_gen', 'Coq.Lists.List', 'Coq.Bool.Bool',
            'Coq.Arith.PeanoNat']
 PRE = 'Import ListNotations.\n'
@@ -2883,7 +2884,16 @@ def run(ck: Ck) -> None:
             'reuse_exit_always_clears_the_temp_handle': allc('exit_always_leaves o 0 VNone'),
             # what make_tempfile does before mkdir / the temp-name loop touches nothing whenever no temp file is open
             # (the model enters a use with mkdir): c12_entry_prologue_keyed_on_stale_name_refuted is the wrong shape
-            'reuse_entry_touches_nothing_before_creating_its_temp_file': 'entry_inert aw_obj aw_entry_prog',
+            'reuse_entry_touches_nothing_before_creating_its_temp_file':
+                'entry_inert aw_obj aw_entry_prog && entry_inert aw_obj aw_entry_prog_closed',
+            # round 5: the same statements when the object still HOLDS a temp file (a use that was entered and never
+            # exited): close the handle, remove the file by name, and only then go on to create a new one
+            # (c12_reentry_after_abandoned_use; c12_reentry_keeps_open_handle_refuted is the shape of seeded c12_8) ...
+            'reuse_entry_gives_up_a_temp_file_left_open':
+                'reentry_ok aw_obj aw_entry_prog && reentry_ok_closed aw_obj aw_entry_prog_closed',
+            # ... and when that entry fails, the handle is forgotten: no later entry comes back to the stale NAME
+            'reuse_failed_entry_forgets_the_temp_handle':
+                'reentry_forgets aw_obj aw_entry_prog && reentry_forgets aw_obj aw_entry_prog_closed',
             'reuse_fresh_object_is_unentered': 'init_unentered aw_obj',
             'reuse_enter_binds_handle_and_temp_name': 'enter_binds aw_obj',
             'temp_is_sibling_of_destination': 'aw_tmp_sibling',
